@@ -19,7 +19,8 @@ EXPLANATION = (
     "header's message nonce and the datagram's trailing bytes as ciphertext. R3: the session is the one stored under (packet src_id, datagram "
     "source address) and the delivered NodeAddress is that very key. R4: encrypt and decrypt use the same AEAD instantiation and the sender's "
     "associated data is IV || header.encode() of the packet it returns, with the nonce of that header. R5: decryption is attempted only on "
-    "inputs of at least the tag length.")
+    "inputs of at least the tag length. R6: the session used was keyed by a handshake whose signature was verified under a key bound to the claimed id, "
+    "and sessions are created only through that path (C01's rules R1-R3, re-evaluated here because C02's first sentence rests on them).")
 NOT_DECIDED = ["that no corruption of a datagram yields a different delivered message (needs AES-GCM unforgeability and the injectivity of the codecs, C05/C06)",
                "the pairing of the select! branches of RecvHandler::start with their receive buffers beyond buffer distinctness"]
 TRUSTED = ["AES-128-GCM is an unforgeable AEAD", "tokio mpsc channels deliver what was sent"]
@@ -387,7 +388,16 @@ def r2(ctx):
     # returned value: only results of those attempts
     rets = canon(ps.local(0))
     alts = rets[1] if rets[0] == "phi" else (rets,)
-    bad = [fmt(x)[:120] for x in alts if not (x[0] == "call" and short(x[1]).endswith("crypto::decrypt_message"))]
+    def leaves(x):
+        # look through re-wrapping such as `match r { Ok(v) => Ok(v), Err(e) => Err(e) }`
+        if x[0] == "agg" and re.search(r"Result::(Ok|Err)$", x[1]):
+            return [y for _, v in x[2] for y in leaves(v)]
+        if x[0] in ("as", "field"):
+            return leaves(x[1])
+        if x[0] == "phi":
+            return [y for v in x[1] for y in leaves(v)]
+        return [x]
+    bad = [fmt(x)[:120] for a_ in alts for x in leaves(a_) if not (x[0] == "call" and short(x[1]).endswith("crypto::decrypt_message"))]
     rule.check(not bad, "Session::decrypt_message returns only the result of an attempt", "Session::decrypt_message|result", "Session::decrypt_message can return %s" % bad, loc=sd.loc(sd.line))
     # ---- crypto::decrypt_message
     cd = facts.one(re.escape(C + "decrypt_message") + "$")
@@ -545,8 +555,27 @@ def r4_r5(ctx):
     return r4, r5
 
 
+def r6(ctx):
+    """'keys of a handshake P completed': the session under which a message is decrypted was keyed by a handshake whose id-signature was
+    verified under a key bound to the claimed id, and sessions enter the table only through that path. These are C01's rules R1-R3;
+    they are re-evaluated here because C02's first sentence rests on them."""
+    import c01
+    rule = Rule("C02.R6", "the decrypting session was keyed by a handshake the claimed peer completed (identity binding of the handshake, gated session creation)",
+                floor=8, engine="A-prov + A-dom + A-who (rules shared with C01)")
+    subs = list(c01.r1_r2(ctx)) + [c01.r3(ctx)]
+    for sub in subs:
+        sub.finish()
+        rule.functions |= sub.functions
+        for o in sub.obligations:
+            if o["verdict"] == "discharged":
+                rule.ok("[%s] %s" % (o["rule"], o["site"]), o.get("detail", ""))
+        for v in sub.violations:
+            rule.fail("%s|%s" % (v.rule, v.key), v.msg, loc=v.loc, site="[%s] %s" % (v.rule, v.key), path=v.path)
+    return rule
+
+
 def run(ctx):
     a, c = r1_r3(ctx)
     b = r2(ctx)
     d, e = r4_r5(ctx)
-    return [a, b, c, d, e]
+    return [a, b, c, d, e, r6(ctx)]
